@@ -390,12 +390,35 @@ def aesfail_component():
         classify=lambda case, out: ["aesfail:" + ("fail" if o.startswith("fail") else "ct") for o in out])
 
 
+def hash_on_accelerated_builds(ctx):
+    """C01's streaming-hash / HMAC / PBKDF2 / CRC components (judged by Spec.Sha256/Hmac/Pbkdf2/Crc32c), rebuilt with the
+    accelerated transforms: what is layered on SHA-256 (scratch arrays shared with the transform, contexts copied around)
+    must not depend on which transform runs."""
+    import copy
+    from props import c01 as _c01
+    out = []
+    for name, feats in (("sse2", ["SSE2"]), ("shani", ["SHANI", "SSSE3", "SSE2"]), ("sse42", ["SSE42", "SSE42_64"])):
+        for c in _c01.components(ctx):
+            if (c.name == "crc") != (name == "sse42"):
+                continue
+            c2 = copy.copy(c)
+            c2.name = "%s-%s" % (c.name, name)
+            c2.cpu = BASE + ["CPUSUPPORT_X86_" + f for f in feats]
+            c2.srcs = list(c.srcs) + ["alg/sha256_shani.c", "alg/sha256_sse2.c", "alg/crc32c_sse42.c", "util/warnp.c"] + \
+                ["cpusupport/cpusupport_x86_%s.c" % DETECT[f] for f in feats if f in DETECT]
+            # a third of C01's cases, without the 2 MiB PBKDF2 outputs (those are about the block index, not the transform)
+            c2.gen = (lambda g: (lambda rng, tier, mult: [x for x in g(rng, tier, mult) if not x[0].startswith("pbkdf2sum")][::3]))(c.gen)
+            c2.rule = "every third of C01's `%s` cases on the %s build: %s" % (c.name, name, c.rule[:200])
+            out.append(c2)
+    return out
+
+
 def check(ctx):
     # The AES-CTR bulk loop of crypto_aesctr_aesni.c (counter handling across byte boundaries up to 2^59 blocks, reached
     # with C02's white-box `seek`) is modelled and proved in C02; its two components (software build, AES-NI build),
     # both judged by Spec.Ctr, are part of this property's check as well.
     from props import c02 as _c02
-    comps = components(ctx) + _c02.components(ctx) + [aesfail_component()]
+    comps = components(ctx) + _c02.components(ctx) + [aesfail_component()] + hash_on_accelerated_builds(ctx)
     ctx.assumptions += [
         "the host executes SHA-NI, SSSE3, SSE2, SSE4.2 (64-bit) and AES-NI (checked: the `path` op of every build must report the expected variant)",
         "instruction semantics (CRC32 r32,r/m8|32|64; PSRLD/PSLLD/PSRLQ/PSHUFD/PSLLDQ/PSRLDQ/MOVSS/PSHUFB/PALIGNR/PUNPCK*QDQ; SHA256RNDS2/MSG1/MSG2; "
